@@ -318,8 +318,8 @@ func genProgram(rng *vh.Rand) program {
 		p.Net.DupTrain = rng.Pick(0, 0, 12, 45)
 	}
 	p.DoubleStop = rng.Chance(0.3)
-	p.CloseDuringInit = rng.Chance(0.25)
-	p.InitCloseLag = rng.Pick(0, 0, 1, 2, 3, 4, 5, 6, 10, 100, 1000)
+	p.CloseDuringInit = rng.Chance(0.3)
+	p.InitCloseLag = rng.Pick(0, 0, 0, 0, 0, 0, 0, 0, 1, 2, 3, 5, 100, 1000)
 	p.Strength = rng.Pick(0, 20, 40, 60)
 	for k := rng.Pick(0, 0, 1, 2, 3); k > 0; k-- {
 		p.LateCreate = append(p.LateCreate, lateCreate{Side: rng.Intn(2), DeltaUs: rng.Pick(-2000, -100, -1, 0, 1, 50, 300, 1000, 5000, 400000), Reliable: rng.Chance(0.4)})
